@@ -74,3 +74,66 @@ pub fn make_nts_data(cookies: Vec<Vec<u8>>, c2s: &[u8], s2c: &[u8]) -> Option<Bo
     }
     Some(Box::new(crate::SourceNtsData { cookies: stash, c2s: make_cipher(c2s)?, s2c: make_cipher(s2c)? }))
 }
+
+// --- BEGIN wsD C31 (IP filter adapter)
+pub mod ipf {
+    //! thin adapter around the crate-private `IpFilter`
+    pub struct Filter(crate::ipfilter::IpFilter);
+    impl Filter {
+        pub fn new(subnets: &[crate::IpSubnet]) -> Self {
+            Filter(crate::ipfilter::IpFilter::new(subnets))
+        }
+        pub fn is_in(&self, addr: std::net::IpAddr) -> bool {
+            self.0.is_in(addr)
+        }
+    }
+}
+// --- END wsD C31
+// --- BEGIN wsD C26/C27 (server cookie adapters)
+pub mod cookies {
+    //! thin adapters: build / inspect `DecodedServerCookie`, call the crate-private
+    //! `KeySet::{encode_cookie, decode_cookie}`
+    use crate::nts::AeadAlgorithm;
+    use crate::packet::{AesSivCmac256, AesSivCmac512};
+    use crate::{DecodedServerCookie, KeySet};
+
+    /// `alg256` ⇒ AEAD_AES_SIV_CMAC_256 (32-byte keys), else _512 (64-byte keys)
+    pub fn make(alg256: bool, s2c: &[u8], c2s: &[u8]) -> Option<DecodedServerCookie> {
+        Some(if alg256 {
+            DecodedServerCookie {
+                algorithm: AeadAlgorithm::AeadAesSivCmac256,
+                s2c: Box::new(AesSivCmac256::try_from(s2c).ok()?),
+                c2s: Box::new(AesSivCmac256::try_from(c2s).ok()?),
+            }
+        } else {
+            DecodedServerCookie {
+                algorithm: AeadAlgorithm::AeadAesSivCmac512,
+                s2c: Box::new(AesSivCmac512::try_from(s2c).ok()?),
+                c2s: Box::new(AesSivCmac512::try_from(c2s).ok()?),
+            }
+        })
+    }
+    /// (IANA AEAD id, s2c key bytes, c2s key bytes)
+    pub fn parts(c: &DecodedServerCookie) -> (u16, Vec<u8>, Vec<u8>) {
+        (u16::from(c.algorithm), c.s2c.key_bytes().to_vec(), c.c2s.key_bytes().to_vec())
+    }
+    pub fn encode(ks: &KeySet, c: &DecodedServerCookie) -> Vec<u8> {
+        ks.encode_cookie(c)
+    }
+    pub fn decode(ks: &KeySet, cookie: &[u8]) -> Option<DecodedServerCookie> {
+        ks.decode_cookie(cookie).ok()
+    }
+}
+// --- END wsD C26/C27
+// --- BEGIN wsD C34 (Bloom filter transfer: re-exports of pub items in private modules)
+pub mod bloom {
+    pub use crate::packet::v5::NtpClientCookie;
+    pub use crate::packet::v5::extension_fields::{ReferenceIdRequest, ReferenceIdResponse};
+    pub use crate::packet::v5::server_reference_id::{
+        BloomFilter, RemoteBloomFilter, ResponseHandlingError, ServerId,
+    };
+}
+// --- END wsD C34
+// --- BEGIN wsD C20 (re-export of the in-module hook of server.rs)
+pub use crate::server::verif_hook as server_hook;
+// --- END wsD C20
